@@ -12,6 +12,14 @@ COLLECT = int(os.environ.get("C12_COLLECT", "-1"))
 MAXSTOP = int(os.environ.get("C12_MAXSTOP", "3"))
 
 
+def _conc(x, lo, hi):
+    """a concrete copy of a small symbolic int (the engine forks on the comparisons); keeps floats and symbolic ints apart"""
+    for v in range(lo, hi + 1):
+        if x == v:
+            return v
+    return lo
+
+
 class _Ag(Agent):
     def initialize(self):
         self.agent_type = "A"
@@ -120,6 +128,8 @@ def _whole(start: int, stop: int, collect: bool, npop: int) -> bool:
     pre: (START < 0 or start == START) and (COLLECT < 0 or collect == (COLLECT == 1))
     post: _
     """
+    start, stop, npop = _conc(start, 0, 3), _conc(stop, 1, 3), _conc(npop, 0, 3)
+    collect = True if collect else False
     return run_whole(start, stop, collect, npop) is None
 
 
@@ -136,6 +146,7 @@ def _single(stop: int, nsteps: int, npop: int) -> bool:
     pre: 1 <= stop <= 3 and 0 <= nsteps <= 4 and 0 <= npop <= 3
     post: _
     """
+    stop, nsteps, npop = _conc(stop, 1, 3), _conc(nsteps, 0, 4), _conc(npop, 0, 3)
     return run_single_steps(stop, nsteps, npop) is None
 
 
@@ -172,14 +183,6 @@ def run_with_deletion(stop, npop, deleter, victim, when):
             if a != b:
                 return "call %d is %r, expected %r" % (i, a, b)
     return None
-
-
-def _conc(x, lo, hi):
-    """a concrete copy of a small symbolic int (the engine forks on the comparisons); keeps floats and symbolic ints apart"""
-    for v in range(lo, hi + 1):
-        if x == v:
-            return v
-    return lo
 
 
 def _deletion(stop: int, npop: int, deleter: int, victim: int, whenstep: int) -> bool:
